@@ -30,10 +30,17 @@ def seed():
         return 20260925
 
 
+_SCRATCH = []
+
+
 def scratch(name):
     d = os.path.join(RUN, "%s.%d" % (name, os.getpid()))
     shutil.rmtree(d, ignore_errors=True)
     os.makedirs(d)
+    if not _SCRATCH:
+        import atexit
+        atexit.register(lambda: [shutil.rmtree(x, ignore_errors=True) for x in _SCRATCH if not os.environ.get("VERIF_KEEP_SCRATCH")])
+    _SCRATCH.append(d)
     return d
 
 
